@@ -82,7 +82,7 @@ impl Filter {
 struct Lvl {
     /// bit 0: field a given at creation, bit 1: field b given at creation
     create: u8,
-    /// later record(): 0 none, 1 = a, 2 = b
+    /// later record(): 0 none, 1 = a, 2 = b, 3 = a and b in ONE record (Span::record_all with a two-field value set)
     record: u8,
     /// false: recorded right after creation; true: recorded after the child span (if any) was created
     late: bool,
@@ -105,6 +105,15 @@ fn do_record(span: &Span, l: &Lvl, level: usize) {
         }
         2 => {
             span.record("b", format!("R{}b", level).as_str());
+        }
+        3 => {
+            if let Some(meta) = span.metadata() {
+                let fs = meta.fields();
+                if let (Some(fa), Some(fb)) = (fs.field("a"), fs.field("b")) {
+                    let (va, vb) = (format!("R{}a", level), format!("R{}b", level));
+                    span.record_all(&fs.value_set(&[(&fa, Some(&va.as_str() as &dyn tracing::field::Value)), (&fb, Some(&vb.as_str() as &dyn tracing::field::Value))]));
+                }
+            }
         }
         _ => {}
     }
@@ -205,6 +214,10 @@ fn walk(env: &mut Env<'_>, depth: usize, parent_labels: Option<BTreeMap<String, 
         2 => {
             m.insert("b".into(), format!("R{}b", depth));
         }
+        3 => {
+            m.insert("a".into(), format!("R{}a", depth));
+            m.insert("b".into(), format!("R{}b", depth));
+        }
         _ => {}
     };
     if !l.late {
@@ -250,6 +263,10 @@ fn walk_child_then_record(env: &mut Env<'_>, depth: usize, span: &Span, l: &Lvl,
             2 => {
                 m.insert("b".into(), format!("R{}b", depth + 1));
             }
+            3 => {
+                m.insert("a".into(), format!("R{}a", depth + 1));
+                m.insert("b".into(), format!("R{}b", depth + 1));
+            }
             _ => {}
         };
         // (the child's own record happens right after creation regardless of its `late` flag when it has no child itself)
@@ -272,7 +289,7 @@ fn levels() -> Vec<Lvl> {
     let mut v = Vec::new();
     for create in 0..4u8 {
         v.push(Lvl { create, record: 0, late: false });
-        for record in 1..3u8 {
+        for record in 1..4u8 {
             for late in [false, true] {
                 v.push(Lvl { create, record, late });
             }
